@@ -296,6 +296,9 @@ func runParse(run *vh.Run, c *Case) {
 		c.Src = "replay/corpus"
 	}
 	run.Count("parse_source", c.Src)
+	for _, b := range stressBuckets(in) {
+		run.Count("classic_split_stress", b+" / classic list parser: "+res["cN"].class)
+	}
 	term := vh.App("CParse", coqTables([]string{in}, bad), vh.StrLit(in), vh.List(obs))
 	nontrivial := strings.ContainsAny(in, "\\\"~") || !isASCII(in) || strings.Contains(classes, "e") || strings.Contains(classes, "r")
 	run.Add(term, c, nontrivial)
@@ -555,8 +558,102 @@ func mutate(r *vh.Rand, s string) string {
 	return s
 }
 
+// ---- lists that stress the classic quote-aware comma split: non-last values that end in one or two backslashes,
+// or contain a quote / escaped quote / escaped backslash right before the separating comma ----
+
+var (
+	stressBases = []string{"", "x", "C:\\dir", "a b", "é", "a,b", "q\"r", "\\", "n"}
+	stressTails = []string{"\\", "\\\\", "\"", "\\\"", "\"\\", ",", "\",", "\\,", "\\\\\\", "\n\\", "", "\\\"\\"}
+	// quoted raw values (already in text form): escaped backslash before the closing quote, escaped quote before a
+	// comma, both, and some broken ones
+	stressRawValues = []string{`"x\\"`, `"\\"`, `"C:\\dir\\"`, `"x\\\\"`, `"x\""`, `"x\\\""`, `"a,b\\"`, `"\",\""`, `"x\",y"`, `"x\\",y"`,
+		`"\\\\\\"`, `"x\"`, `x\\`, `x\`, `"x"`, `"\n\\"`, `"é\\"`, `"\\,"`, `""`, `"\"\\"`}
+)
+
+func genStressValue(r *vh.Rand) string { return vh.Pick(r, stressBases) + vh.Pick(r, stressTails) }
+
+func genListStressCase(r *vh.Rand) Case {
+	c := Case{Kind: "print"}
+	n := r.Range(2, 4)
+	for i := 0; i < n; i++ {
+		t := vh.Pick(r, []int{0, 0, 0, 1, 1, 2, 3})
+		name := vh.Pick(r, classicNames)
+		if r.Chance(1, 6) {
+			name = genName(r)
+		}
+		v := genStressValue(r)
+		if i == n-1 && r.Chance(1, 2) {
+			v = genValue(r, false)
+		}
+		if t >= 2 {
+			if _, err := regexp.Compile("^(?:" + v + ")$"); err != nil {
+				v = regexp.QuoteMeta(v)
+			}
+		}
+		c.MS = append(c.MS, M{T: t, N: []byte(name), V: []byte(v)})
+	}
+	return c
+}
+
+func genRawListStress(r *vh.Rand) string {
+	var sb strings.Builder
+	if r.Chance(1, 2) {
+		sb.WriteString("{")
+	}
+	n := r.Range(2, 4)
+	for i := 0; i < n; i++ {
+		if i > 0 {
+			sb.WriteString(vh.Pick(r, []string{",", ",", ", ", " ,", ",\t"}))
+		}
+		sb.WriteString(vh.Pick(r, classicNames))
+		sb.WriteString(vh.Pick(r, []string{"=", "=", "!=", "=~", "!~", " = "}))
+		if i < n-1 || r.Chance(1, 2) {
+			sb.WriteString(vh.Pick(r, stressRawValues))
+		} else {
+			sb.WriteString(vh.Pick(r, rawValues))
+		}
+	}
+	if r.Chance(1, 8) {
+		sb.WriteString(",")
+	}
+	if r.Chance(1, 2) {
+		sb.WriteString("}")
+	}
+	return sb.String()
+}
+
+// stressBuckets names the shapes of a list text that exercise the escape tracking of the classic comma split.
+func stressBuckets(in string) []string {
+	var out []string
+	if strings.Contains(in, `\\",`) {
+		out = append(out, "escaped backslash, closing quote, comma")
+	}
+	if strings.Contains(in, `\\\\",`) {
+		out = append(out, "two escaped backslashes, closing quote, comma")
+	}
+	if strings.Contains(in, `\",`) && !strings.Contains(in, `\\",`) {
+		out = append(out, "escaped quote right before a comma")
+	}
+	if strings.Contains(in, `\\\",`) {
+		out = append(out, "escaped backslash + escaped quote before a comma")
+	}
+	return out
+}
+
 func genSyntax(env vh.Env, r *vh.Rand) []Case {
 	var cases []Case
+	for i, n := 0, env.N(250, 12); i < n; i++ {
+		c := genListStressCase(r.Fork())
+		cases = append(cases, c)
+		var ms labels.Matchers
+		for _, mj := range c.MS {
+			ms = append(ms, &labels.Matcher{Type: labels.MatchType(mj.T), Name: string(mj.N), Value: string(mj.V)})
+		}
+		cases = append(cases, Case{Kind: "parse", Input: []byte(ms.String()), Src: "printed list, backslash/quote before the comma"})
+	}
+	for i, n := 0, env.N(250, 12); i < n; i++ {
+		cases = append(cases, Case{Kind: "parse", Input: []byte(genRawListStress(r.Fork())), Src: "raw list, backslash/quote before the comma"})
+	}
 	for i, n := 0, env.N(700, 12); i < n; i++ {
 		c := genPrintCase(r.Fork())
 		cases = append(cases, c)
